@@ -17,6 +17,7 @@ def check(ctx):
     ctx.explanation += (" R6 the delivery bundle: queues drained to their end with the registry filtered in place, closed = closed and empty, "
                         "stale sets kept unless cancelable, shared sets fanned out to every parent, one sampling filter at the choke point, a scope "
                         "records iff any parent is sampled, setting a local parent opens a scope, no-op only without a recording parent.")
+    ctx.explanation += (' Round 5: R2 also -- only mount_danglings appends events / properties to a finished record (to_span_records and a push share that one writer).')
     ctx.not_decided = "identity of the N delivered subtrees as values."
     facts = ctx.facts("E")
     provrules.rule_push_child(ctx, facts, "R1")
